@@ -125,7 +125,10 @@ def m_proj(v: MVal, cols, pref=None, backtrack=True) -> MVal:
     keep = v.order_det
     state = v.sql_state
     if sqlr:
-        if is_sql(v.engine) and state is not None and v.sort_cols <= set(cols):
+        if is_sql(v.engine) and state is not None and pref in (None, v.engine):
+            # SELECT <fewer columns> ... ORDER BY <anything the FROM clause has> [LIMIT]: the projection does not
+            # disturb the order, whether or not it keeps the sort columns (the library must either compile it that
+            # way or refuse)
             pass
         else:
             keep, state = False, None
@@ -176,8 +179,8 @@ def m_dedup(v: MVal, pref=None, backtrack=True) -> MVal:
     sqlr = _sqlrules(v, pref, backtrack)
     keep, state = v.order_det, v.sql_state
     if sqlr:
-        if is_sql(v.engine) and state == "sorted":
-            pass
+        if is_sql(v.engine) and state == "sorted" and v.sort_cols <= set(v.cols):
+            pass        # (with a hidden sort column, which of several equal rows decides the position is not defined)
         else:
             keep, state = False, None
     return v.derive(
